@@ -111,3 +111,106 @@ Proof.
   split; [reflexivity|]. split; [discriminate|]. split; [reflexivity|].
   split; vm_compute; reflexivity.
 Qed.
+
+(** * The repaired loop: no overflow guard is needed any more *)
+
+Lemma mul_overflow_test n f : 0 < f -> (wrap64 (n * f) / f =? n) = (n * f <? W64).
+Proof.
+  intro Hf. destruct (n * f <? W64) eqn:E.
+  - apply N.ltb_lt in E. rewrite wrap64_small by exact E. apply N.eqb_eq. apply N.div_mul. lia.
+  - apply N.ltb_ge in E. apply N.eqb_neq. intro H.
+    assert (Hlt : wrap64 (n * f) < n * f).
+    { pose proof (wrap64_lt (n * f)). lia. }
+    assert (wrap64 (n * f) / f < n).
+    { apply N.div_lt_upper_bound; [lia|]. lia. }
+    lia.
+Qed.
+
+Lemma range_end_fx_spec fetch e startNo begin :
+  0 < fetch -> e < W64 -> begin <= e ->
+  startNo * fetch <= begin -> begin <= (startNo + 1) * fetch ->
+  let re := range_end_fx fetch e startNo in
+  begin <= re /\ re <= e /\ (re = e \/ (re = (startNo + 1) * fetch /\ re < e /\ wrap64 (startNo + 1) = startNo + 1)).
+Proof.
+  intros Hf He Hbe Hlo Hhi. cbv zeta. unfold range_end_fx.
+  assert (Hs : startNo <= startNo * fetch) by nia.
+  assert (Hs2 : startNo + 1 <= W64) by lia.
+  destruct (wrap64 (startNo + 1) =? 0) eqn:E0; [lia|].
+  assert (Hn : wrap64 (startNo + 1) = startNo + 1).
+  { destruct (N.eq_dec (startNo + 1) W64) as [Eq|Ne].
+    - rewrite Eq in E0. unfold wrap64 in E0. rewrite N.mod_same in E0 by (unfold W64; lia). discriminate.
+    - apply wrap64_small. lia. }
+  rewrite Hn, (mul_overflow_test _ _ Hf).
+  destruct ((startNo + 1) * fetch <? W64) eqn:E1; cbn [andb]; [|lia].
+  apply N.ltb_lt in E1. rewrite wrap64_small by exact E1.
+  destruct ((startNo + 1) * fetch <? e) eqn:E2; [|lia].
+  apply N.ltb_lt in E2. split; [lia|]. split; [lia|]. right. repeat split; lia.
+Qed.
+
+Lemma loop_ok_fx fetch e : 0 < fetch -> e < W64 ->
+  forall fuel begin startNo,
+  (begin <= e -> startNo * fetch <= begin /\ begin <= (startNo + 1) * fetch) ->
+  begin <= e + 1 -> (N.to_nat (e + 1 - begin) <= fuel)%nat ->
+  exists rs, ranges_loop_fx fuel fetch begin e startNo = Some rs /\ chain begin e rs.
+Proof.
+  intros Hf Hw fuel. induction fuel as [|k IH]; intros begin startNo Hinv Hb Hfuel.
+  - simpl. destruct (e <? begin) eqn:E.
+    + exists []. split; [reflexivity|]. simpl. lia.
+    + lia.
+  - simpl. destruct (e <? begin) eqn:E.
+    + exists []. split; [reflexivity|]. simpl. lia.
+    + assert (Hbe : begin <= e) by lia.
+      destruct (Hinv Hbe) as [Hlo Hhi].
+      pose proof (range_end_fx_spec fetch e startNo begin Hf Hw Hbe Hlo Hhi) as Hspec. cbv zeta in Hspec.
+      set (re := range_end_fx fetch e startNo) in *.
+      destruct Hspec as [Hre1 [Hre2 Hcase]].
+      destruct (re =? e) eqn:Ee.
+      * apply N.eqb_eq in Ee. exists [(begin, re)]. split; [reflexivity|].
+        simpl. repeat split; try lia.
+      * apply N.eqb_neq in Ee. destruct Hcase as [Hc|[Hc1 [Hc2 Hc3]]]; [contradiction|].
+        rewrite (wrap64_small (re + 1)) by lia. rewrite Hc3.
+        destruct (IH (re + 1) (startNo + 1)) as [rs [Hrs Hch]].
+        -- intro Hle. split; nia.
+        -- lia.
+        -- lia.
+        -- rewrite Hrs. exists ((begin, re) :: rs). split; [reflexivity|].
+           simpl. repeat split; try lia. exact Hch.
+Qed.
+
+(** Partition theorem for the repaired loop: for EVERY request with begin <= end that uint64 can
+    express (end <= 2^64-1) and every fetch > 0 the loop terminates and the ranges are non-empty,
+    ascending, disjoint and cover [begin..end] exactly. *)
+Theorem ranges_partition_fx fetch b e :
+  0 < fetch -> b <= e -> e < W64 ->
+  exists rs, calc_ranges_fx (N.to_nat (e - b) + 1) fetch b e = ROk rs /\ chain b e rs.
+Proof.
+  intros Hf Hbe Hw. unfold calc_ranges_fx.
+  destruct (e <? b) eqn:E; [lia|].
+  destruct (loop_ok_fx fetch e Hf Hw (N.to_nat (e - b) + 1) b (b / fetch)) as [rs [H1 H2]].
+  - intros _. pose proof (N.div_mod b fetch ltac:(lia)) as Hdm.
+    pose proof (N.mod_lt b fetch ltac:(lia)) as Hml. split; nia.
+  - lia.
+  - lia.
+  - rewrite H1. exists rs. split; [reflexivity | exact H2].
+Qed.
+
+Lemma ranges_refused_fx fuel fetch b e : e < b -> calc_ranges_fx fuel fetch b e = RErr.
+Proof. intro H. unfold calc_ranges_fx. destruct (e <? b) eqn:E; [reflexivity|lia]. Qed.
+
+(** inside the old guard the repaired loop computes exactly what the old loop computed *)
+Lemma range_end_fx_same fetch e startNo begin :
+  0 < fetch -> e + fetch < W64 -> begin <= e ->
+  startNo * fetch <= begin -> begin <= (startNo + 1) * fetch ->
+  range_end_fx fetch e startNo = range_end fetch e startNo.
+Proof.
+  intros Hf Hw Hbe Hlo Hhi.
+  rewrite (range_end_nowrap fetch e startNo begin Hf Hw Hbe Hlo Hhi).
+  assert (Hs : startNo <= startNo * fetch) by nia.
+  unfold range_end_fx. rewrite (wrap64_small (startNo + 1)) by (unfold W64 in *; lia).
+  destruct (startNo + 1 =? 0) eqn:E0; [lia|].
+  rewrite (mul_overflow_test _ _ Hf).
+  assert (Hm : (startNo + 1) * fetch = startNo * fetch + fetch) by nia.
+  assert (E1 : ((startNo + 1) * fetch <? W64) = true) by (apply N.ltb_lt; lia).
+  rewrite E1, wrap64_small by lia. cbn [andb].
+  destruct ((startNo + 1) * fetch <? e) eqn:E2; lia.
+Qed.
